@@ -288,7 +288,14 @@ func QualifierParser(prefix string) pars.Parser {
 
 	quotedParser := quotedQualifierParser(prefix)
 	literalParser := literalQualifierParser(prefix)
-	toggleParser := pars.EOL
+	toggleParser := func(state *pars.State, result *pars.Result) error {
+		if err := pars.EOL(state, result); err != nil {
+			return err
+		}
+		// A toggle qualifier has no value (the token holds the line break).
+		result.SetToken(nil)
+		return nil
+	}
 
 	valueParsers := []pars.Parser{quotedParser, literalParser, toggleParser}
 
